@@ -131,7 +131,7 @@ def classify_set(ctx):
                 upd.append(("alias-in-%s-left-stale" % _ptype(pos),
                             "an alias of the matched anchored node keeps the old value"))
             elif pos in matched:
-                if o == scalars.get(pos):
+                if o == K.canon_at(ctx["before"], pos):
                     upd.append(("matched-node-not-updated/%s" % _ptype(pos), "a matched node still holds its old value"))
                 else:
                     upd.append(("matched-node-holds-other-value/%s-for-%s" % (o[0], e[0]),
